@@ -21,14 +21,14 @@ TECHNIQUE = ("Lean 4 machine-checked proof over a hand model of NodeSorter / Ele
              "regenerated from NodeSorter.cpp on every run by a translator that also asserts the mirrored code shape; "
              "correspondence runs of generated xsl:sort stylesheets through the real XalanTransformer against the compiled model, "
              "with an independent executable specification predicate evaluated on every order the implementation produced")
-LEVEL_TEXT = ("Proved for every node list and every key list (37 theorems, no sorry, axioms propext/Classical.choice/Quot.sound): the "
+LEVEL_TEXT = ("Proved for every node list and every key list (41 theorems, no sorry, axioms propext/Classical.choice/Quot.sound): the "
               "multi-key comparator is a strict weak order equal to the lexicographic specification (text by collation, numbers with "
               "NaN least, descending per key); the number/string caches are transparent over any history of comparator calls and "
               "empty at the exit of every sort on normal and exceptional paths, so over the whole life of a transformer's sorter "
               "(including aborted, nested and re-entrant sorts — a sort key whose evaluation runs another sort) each completed sort returns a permutation that is sorted, stable and unique "
               "with these properties; insertion sort through the caches, List.mergeSort and a libstdc++-shaped run/merge sort agree; "
               "each comparison is collated with its own key's language and case-order through any state of the ICU collator cache "
-              "(code-unit order when ICU refuses the language name); position()/last() in the body are index+1/length of the sorted list for every history of context-list pushes and pops (the position cache is transparent). Tied to the working tree "
+              "(code-unit order when ICU refuses the language name); every sort key is evaluated with the node being sorted as current and context node and position()/last() of the unsorted list; position()/last() in the body are index+1/length of the sorted list for every history of context-list pushes and pops (the position cache is transparent). Tied to the working tree "
               "by the translator and by ~8 300 (quick) / ~174 000 (thorough, part under ASan) generated cases run on the real library "
               "and on the model, with exact observation of key values and of processing order.")
 LEVEL_NOTE = ("Trusted: Lean kernel (thorough tier: leanchecker); std::stable_sort's internal buffer management (its contract is used; "
@@ -77,6 +77,10 @@ THEOREMS = [P + t for t in [
     "reentrant_sorts_correct",
     "sharedSorter_reentrancy_counterexample",
     "noCacheGuards_counterexample",
+    "sort_key_context",
+    "sort_key_position",
+    "sort_key_context_counterexample",
+    "nodeSorter_overloads_push_current",
     "position_cache_transparent",
     "body_position_after_inner",
     "popKeepsCache_counterexample",
@@ -432,6 +436,9 @@ def run(ctx):
     ctx.assumptions += ["ICU root/en collation orders fixed-length lower-case ASCII strings (and the empty string first) by code unit",
                         "key evaluation is deterministic (same node, same key -> same value)"]
     ctx.build("hooks")
+    # C11's translator tables the prologue (RAII guards) of every XPath::execute overload; Props.C16 obliges the two
+    # overloads NodeSorter evaluates keys through to push the node being sorted as current node
+    ctx.translate("c11_prologue")
     tr_ok, _ = ctx.translate("c16_nodesorter")
     global TRANSLATED
     TRANSLATED = tr_ok
